@@ -53,7 +53,43 @@ func new_RemoveUnusedPass(m *ast.Module) *_RemoveUnusedPass {
 	return p
 }
 
+// 是否存在未命名的函数, 或通过数字索引引用函数的导出/表格元素.
+// 这类模块中删除函数会改变函数索引空间, 而本 pass 只按名字标记和删除.
+func (p *_RemoveUnusedPass) hasIndexedFuncRef() bool {
+	isIndex := func(s string) bool {
+		return s == "" || (s[0] >= '0' && s[0] <= '9')
+	}
+	for _, importSpec := range p.m.Imports {
+		if importSpec.ObjKind == token.FUNC && isIndex(importSpec.FuncName) {
+			return true
+		}
+	}
+	for _, fn := range p.m.Funcs {
+		if isIndex(fn.Name) {
+			return true
+		}
+	}
+	for _, exp := range p.m.Exports {
+		if exp.Kind == token.FUNC && isIndex(exp.FuncIdx) {
+			return true
+		}
+	}
+	for _, elem := range p.m.Elem {
+		for _, elemValue := range elem.Values {
+			if isIndex(elemValue) {
+				return true
+			}
+		}
+	}
+	return false
+}
+
 func (p *_RemoveUnusedPass) DoPass() *ast.Module {
+	// 函数索引被直接使用时不做删除
+	if p.hasIndexedFuncRef() {
+		return p.m
+	}
+
 	for i := range p.funcs {
 		p.funcs[i].color = white
 	}
